@@ -34,12 +34,14 @@ PROPS = {
     'C19': dict(lean_quick=['Props.C19'], prefixes=['p8e0::{impl#15}', 'p16e1::{impl#15}', 'p32e2::{impl#15}'], assumptions=['rand 0.8: gen_range(lo..hi) returns a value in [lo, hi)']),
     'C16': dict(lean_quick=['Props.C01Fin', 'Props.C03Fin', 'Props.C06Fin', 'Props.C07Fin', 'Props.C08Fin', 'Props.C09Fin', 'Props.C10Fin', 'Props.C11Fin', 'Props.C17Fin', 'Props.C05ShardQuick', 'Props.C04Hist', 'Props.C19', 'Props.C13', 'Props.C14'],
                 totality=True, all_theorems=True, prefixes=['']),
-    'C15': dict(lean_quick=['Props.C15'], prefixes=['p32e2::math::sleef', 'polynom', 'quire32'], oracle15=True),
+    'C15': dict(lean_quick=['Props.C15', 'Props.C15Pi'], prefixes=['p32e2::math::sleef', 'polynom', 'quire32'], oracle15=True),
     'C13': dict(lean_quick=['Props.C13'], prefixes=['pxe1', 'pxe2']),
     'C14': dict(lean_quick=['Props.C14'], prefixes=['pxe1', 'pxe2', 'convert']),
     'C04': dict(lean_quick=['Props.C04', 'Props.C04Hist'], prefixes=['quire8', 'quire16', 'quire32']),
     'C12': dict(lean_quick=['Props.C12'], prefixes=['quire8', 'quire16', 'quire32']),
 }
+# thorough tier: the P8E0 exhaustive theorems re-proved by kernel evaluation only (`decide +kernel`; axioms: propext, Classical.choice, Quot.sound)
+for _p, _m in {'C01': ['Props.C01FinKer', 'Props.C01ShardKer'], 'C03': ['Props.C03FinKer'], 'C06': ['Props.C06FinKer'], 'C07': ['Props.C07FinKer'], 'C08': ['Props.C08FinKer'], 'C09': ['Props.C09FinKer'], 'C10': ['Props.C10FinKer'], 'C11': ['Props.C11FinKer'], 'C17': ['Props.C17FinKer']}.items(): PROPS[_p]['lean_thorough'] = PROPS[_p].get('lean_thorough', []) + _m
 OVERRIDE_PROPS = {'C04', 'C12', 'C14', 'C15', 'C16', 'C18'}
 
 def lost_functions(gix, pid):
@@ -151,6 +153,52 @@ def quire_history(qt, rng, maxlen=24, state_ops=True):
             a = P(); toks += ['ap', a, (-a) & ((1 << n) - 1)]
     return qt + ' hist ' + ' '.join(x if isinstance(x, str) else '%x' % x for x in toks)
 
+_TRIG = {}
+def trig_worst_cases(count):
+    """the P32E2 patterns in the reduced range (|x| < 393216) that lie closest — relative to the multiplier q — to a multiple
+    of pi/2: where an error in the argument reduction (the pi split, the quotient, the quire subtraction) is magnified most.
+    All ~250k multiples are scanned; deterministic; cached in work/."""
+    import json
+    cache = os.path.join(core.WORK, 'trig_worst.json')
+    if 'v' not in _TRIG:
+        if os.path.exists(cache):
+            _TRIG['v'] = json.load(open(cache))
+        else:
+            from fractions import Fraction as Fr
+            import sys
+            sp = os.path.join(core.VERIF, 'tools')
+            if sp not in sys.path: sys.path.insert(0, sp)
+            from pyspec import rnd, to_rat
+            # pi to 200 bits (Machin), as a fraction
+            def atan_inv(x, bits):
+                one = 1 << bits; t = one // x; s_ = t; n = 1; x2 = x * x; sign = -1
+                while t:
+                    t //= x2; n += 2; s_ += sign * (t // n); sign = -sign
+                return s_
+            bits = 260
+            pi = Fr(4 * (4 * atan_inv(5, bits) - atan_inv(239, bits)), 1 << bits)
+            out = []
+            k = 1
+            while True:
+                v = pi * k / 2
+                if v >= 393216: break
+                p = rnd(32, 2, v)
+                best = None
+                for d in (-1, 0, 1):
+                    r = abs(to_rat(32, 2, p + d) - v)
+                    if best is None or r < best[0]: best = (r, p + d)
+                out.append((float(best[0]) / k, best[1]))
+                k += 1
+            out.sort()
+            _TRIG['v'] = [p for _, p in out[:20000]]
+            os.makedirs(core.WORK, exist_ok=True)
+            json.dump(_TRIG['v'], open(cache, 'w'))
+    M32 = (1 << 32) - 1
+    res = []
+    for p in _TRIG['v'][:count]:
+        res += [p, (-p) & M32]
+    return res
+
 def extra_streams(pid, tier, rng, scale):
     from .gen_inputs import interesting_posits
     lines = []
@@ -237,9 +285,12 @@ def extra_streams(pid, tier, rng, scale):
             for v in around(2.0 ** e, 1): special += [v, (-v) & M32]
         for v in (0.5, 1.0, 1.5, 2.0, 0.25, 104.0, -104.0, 88.0, 127.99, -149.9, 1e-9, 3e5, 393215.0):
             special += around(v, 2)
+        trig_worst = trig_worst_cases(3000 * scale * big)
         un = ['sin', 'cos', 'tan', 'asin', 'acos', 'atan', 'ln', 'log2', 'exp', 'exp2', 'sinh', 'cosh', 'cbrt']
         for f in un:
             for a in special: lines.append('p32 %s %x' % (f, a))
+            if f in ('sin', 'cos', 'tan'):
+                for a in trig_worst: lines.append('p32 %s %x' % (f, a))
             for a in interesting_posits(32, rng, per): lines.append('p32 %s %x' % (f, a))
             for _ in range(per): lines.append('p32 %s %x' % (f, rng.getrandbits(32)))
             lo, hi = {'asin': (-0x40000000, 0x40000000), 'acos': (-0x40000000, 0x40000000), 'exp': (-0x6a800000, 0x6a800000), 'exp2': (-0x6cb00000, 0x6c000000),
